@@ -120,7 +120,9 @@ impl<'a, R: BufRead> Asc2DltMsgIterator<'a, R> {
 
     fn timestamp_dms_from(&self, timestamp_us: i64) -> u32 {
         if timestamp_us >= 0 {
-            self.timestamp_offset_dms + ((timestamp_us / 100) as u32)
+            // (the dlt timestamp is a 32bit value that wraps)
+            self.timestamp_offset_dms
+                .wrapping_add((timestamp_us / 100) as u32)
         } else if self.timestamp_offset_dms > 0 {
             self.timestamp_offset_dms
                 .saturating_sub((-timestamp_us / 100) as u32)
@@ -193,10 +195,11 @@ fn parse_signed_time_str(timestamp: &str) -> i64 {
     let offset_timestamp = if timestamp_is_neg { 1_usize } else { 0 };
     let dot_idx = timestamp.find('.').unwrap_or(timestamp.len());
 
-    let timestamp_secs_us: i64 = timestamp[offset_timestamp..dot_idx]
-        .parse::<i64>()
-        .unwrap_or_default()
-        .saturating_mul(US_PER_SEC as i64);
+    // we parse as i32 (so max ~68 years). Larger values are treated as parsing error.
+    let timestamp_secs_us: i64 = (timestamp[offset_timestamp..dot_idx]
+        .parse::<i32>()
+        .unwrap_or_default() as i64)
+        * (US_PER_SEC as i64);
     let timestamp_fraction_us = if dot_idx < timestamp.len() {
         let timestamp_fraction_str = &timestamp[dot_idx + 1..];
         let mut len_fraction = timestamp_fraction_str.len();
